@@ -28,7 +28,7 @@
    relation of expirations to real time, scheduling latency after the wake-up
    (the property is a lower bound).  Guard: tick counters stay below 2^64. *)
 From Coq Require Import List ZArith NArith Lia Bool Permutation Sorting.Sorted.
-From LF Require Import SleepTree SleepTreeProofs SleepAst gen.SleepGen SleepArith SleepTime.
+From LF Require Import SleepTree SleepTreeProofs SleepAst SleepArith SleepTime gen.SleepGen.
 Import ListNotations.
 
 (* ================= the tree ================= *)
